@@ -679,9 +679,10 @@ class SymList:
 class FuncRef:
     """reference to a repo function/method (FunctionInfo) optionally bound to self"""
 
-    def __init__(self, info, bound=None):
+    def __init__(self, info, bound=None, raw=False):
         self.info = info
         self.bound = bound
+        self.raw = raw          # the undecorated function (argument of a decorator whose wrapper is executed)
 
     def __repr__(self):
         return "<FuncRef %s>" % self.info.qualname
